@@ -27,16 +27,18 @@ const MinPackages = 92
 var Patterns = []string{"./bcs/...", "./kernel/...", "./lib/..."}
 
 type Program struct {
-	Dir     string
-	Fset    *token.FileSet
-	Pkgs    []*packages.Package          // module packages (initial)
-	ByPath  map[string]*packages.Package // import path -> package (module packages only)
-	SSA     *ssa.Program
-	SSAPkgs map[string]*ssa.Package  // import path -> ssa package (module packages only)
-	Funcs   map[string]*ssa.Function // "<pkg suffix>::<name>" -> function (module, non-anonymous)
-	AllFns  []*ssa.Function          // every module function incl. anonymous, deterministic order
-	LoadS   float64
-	Errors  []string
+	Dir      string
+	Fset     *token.FileSet
+	Pkgs     []*packages.Package          // module packages (initial)
+	ByPath   map[string]*packages.Package // import path -> package (module packages only)
+	SSA      *ssa.Program
+	SSAPkgs  map[string]*ssa.Package  // import path -> ssa package (module packages only)
+	Funcs    map[string]*ssa.Function // "<pkg suffix>::<name>" -> function (module, non-anonymous)
+	Inlined  []string                 // "caller <- helper" for every call site replaced by the helper's body
+	Absorbed []string                 // helpers absorbed at all their call sites (no longer analysed on their own)
+	AllFns   []*ssa.Function          // every module function incl. anonymous, deterministic order
+	LoadS    float64
+	Errors   []string
 }
 
 // Load loads dir (normally /repo). overlay may replace file contents (used by
@@ -144,8 +146,137 @@ func Load(dir string, overlay map[string][]byte) (*Program, error) {
 			}
 		}
 	}
+	p.normalise()
 	p.LoadS = time.Since(t0).Seconds()
 	return p, nil
+}
+
+// KnownName is set by the command before Load: it reports whether an identifier is
+// named by some rule (function anchors, callee specs, canonical patterns). A private
+// helper whose name no rule knows is absorbed into its callers before analysis, so
+// that extracting lines into a new helper (or inlining one) leaves the analysed
+// program unchanged. nil disables inlining.
+var KnownName func(string) bool
+
+// NonNil is the oracle handed to the normaliser: values that are never nil (error
+// constructors, sentinel errors). Set by the command before Load.
+var NonNil func(ssa.Value) bool
+
+// normalise applies the forked ssa package's normalising transforms to every
+// module function and drops the helpers that were absorbed at all their call sites.
+func (p *Program) normalise() {
+	if os.Getenv("XVC_NO_NORMALISE") != "" {
+		return
+	}
+	pol := func(caller, callee *ssa.Function) bool {
+		if KnownName == nil || callee.Object() == nil || callee.Object().Exported() {
+			return false
+		}
+		cp := caller
+		for cp.Parent() != nil {
+			cp = cp.Parent()
+		}
+		if callee.Pkg == nil || cp.Pkg != callee.Pkg || !strings.HasPrefix(callee.Pkg.Pkg.Path()+"/", Mod) {
+			return false
+		}
+		return !KnownName(callee.Name())
+	}
+	norm := ssa.NewNormalizer(pol)
+	norm.NonNil = NonNil
+	for _, fn := range p.AllFns {
+		if fn.Parent() == nil {
+			norm.Normalize(fn)
+		}
+	}
+	p.Inlined = norm.Sites
+	for _, fn := range p.AllFns {
+		if ok, rep := ssa.SanityCheck(fn); !ok {
+			p.Errors = append(p.Errors, fmt.Sprintf("normalised SSA of %s fails the sanity check: %s", fn, rep))
+		}
+	}
+	// helpers absorbed everywhere are no longer part of the analysed program
+	cand := map[*ssa.Function]bool{}
+	for f, n := range norm.Inlined {
+		if n > 0 && !ifaceMethodName(f) {
+			cand[f] = true
+		}
+	}
+	refs := map[*ssa.Function]map[*ssa.Function]bool{}
+	var rands []*ssa.Value
+	for _, g := range p.AllFns {
+		for _, b := range g.Blocks {
+			for _, ins := range b.Instrs {
+				rands = ins.Operands(rands[:0])
+				for _, r := range rands {
+					if f, ok := (*r).(*ssa.Function); ok && cand[f] && f != g {
+						if refs[f] == nil {
+							refs[f] = map[*ssa.Function]bool{}
+						}
+						refs[f][g] = true
+					}
+				}
+			}
+		}
+	}
+	for changed := true; changed; {
+		changed = false
+		for f := range cand {
+			for g := range refs[f] {
+				top := g
+				for top.Parent() != nil {
+					top = top.Parent()
+				}
+				if !cand[top] {
+					delete(cand, f)
+					changed = true
+					break
+				}
+			}
+		}
+	}
+	if len(cand) > 0 {
+		keep := p.AllFns[:0]
+		for _, fn := range p.AllFns {
+			top := fn
+			for top.Parent() != nil {
+				top = top.Parent()
+			}
+			if !cand[top] {
+				keep = append(keep, fn)
+			}
+		}
+		p.AllFns = keep
+		for k, fn := range p.Funcs {
+			if cand[fn] {
+				delete(p.Funcs, k)
+				p.Absorbed = append(p.Absorbed, k)
+			}
+		}
+		sort.Strings(p.Absorbed)
+	}
+}
+
+// ifaceMethodName: fn is a method whose name some interface of its package declares
+// (it may then be reached by dynamic dispatch even when no static call remains).
+func ifaceMethodName(fn *ssa.Function) bool {
+	if fn.Signature == nil || fn.Signature.Recv() == nil || fn.Pkg == nil {
+		return false
+	}
+	sc := fn.Pkg.Pkg.Scope()
+	for _, n := range sc.Names() {
+		tn, ok := sc.Lookup(n).(*types.TypeName)
+		if !ok {
+			continue
+		}
+		if it, ok := tn.Type().Underlying().(*types.Interface); ok {
+			for i := 0; i < it.NumMethods(); i++ {
+				if it.Method(i).Name() == fn.Name() {
+					return true
+				}
+			}
+		}
+	}
+	return false
 }
 
 // FuncName renders "(*T).M", "(T).M" or "F" without package qualifiers.
